@@ -1415,6 +1415,13 @@ def _unit_name_constant_rational(F, s, e):
                         if ok:
                             continue
                         return False, why
+                    # a private function that hands on its own parameter: the obligation moves to its callers
+                    cap = c.apath(t["args"][idx])
+                    if cap[0][0] == "arg" and not cap[1] and depth < 3 and not c.raw.get("public") and "{closure" not in c.path:
+                        ok, why = sites_of(c, cap[0][1] - 1, depth + 1)
+                        if ok:
+                            continue
+                        return False, why
                     return False, "%s passes %s" % (c.path, ap_str(c.apath(t["args"][idx]))[:80])
         return (n > 0), ("%d call sites" % n if n else "no call site of %s found" % target.path)
     ok, why = sites_of(s.fn, 4)
